@@ -2,18 +2,34 @@
 
 package ports
 
+import "github.com/fatedier/frp/zzverif"
+
 // harness accessors (overlay only)
 
 func (pm *Manager) ZZIsFree(port int) bool {
+	pm.mu.Lock()
+	defer pm.mu.Unlock()
 	_, ok := pm.freePorts[port]
 	return ok
 }
 
 func (pm *Manager) ZZOwner(port int) string {
+	pm.mu.Lock()
+	defer pm.mu.Unlock()
 	if c, ok := pm.usedPorts[port]; ok {
 		return c.ProxyName
 	}
 	return ""
 }
 
-func (pm *Manager) ZZCounts() (free, used int) { return len(pm.freePorts), len(pm.usedPorts) }
+func (pm *Manager) ZZCounts() (free, used int) {
+	pm.mu.Lock()
+	defer pm.mu.Unlock()
+	return len(pm.freePorts), len(pm.usedPorts)
+}
+
+func (pm *Manager) ZZGuard(name string) {
+	zzverif.Guard(pm.reservedPorts, &pm.mu, name+".reservedPorts")
+	zzverif.Guard(pm.usedPorts, &pm.mu, name+".usedPorts")
+	zzverif.Guard(pm.freePorts, &pm.mu, name+".freePorts")
+}
